@@ -167,7 +167,7 @@ func (p *Pool) Get() any {
 	}
 	i := n - 1 - k
 	x := p.free[i]
-	p.free = append(p.free[:i:i], p.free[i+1:]...)
+	p.free = vrace.RemoveAt(p.free, i)
 	vrace.Acquire(unsafe.Pointer(p))
 	return x
 }
